@@ -152,6 +152,33 @@ func runC04(c *rt.Ctx) {
 	c.Trans(int64(tr))
 	c.Set("bfs_depth", depth)
 
+	// (a2) one key, deeper: values that shrink and grow across chunk counts, delete, then
+	// add / replace / append (what an earlier, larger value left behind must not matter)
+	{
+		k := "k"
+		p := payloadFor(len(k))
+		seed := 1000
+		v := func(kind string, n int, flags uint32) wire.Op {
+			seed++
+			return wire.Op{Kind: kind, Key: k, VGen: true, VLen: n, VSeed: seed, Flags: flags}
+		}
+		deep := []wire.Op{
+			{Kind: "get", Key: k},
+			v("set", 2*p+1, 1), v("set", p+1, 2), v("set", 1, 3), v("set", 0, 4),
+			v("add", 3*p, 5), v("add", p+1, 6), v("add", 1, 7),
+			v("replace", 2*p+1, 8), v("replace", 1, 9),
+			v("append", p, 0), v("prepend", 1, 0),
+			{Kind: "delete", Key: k}, {Kind: "touch", Key: k, TTL: 100},
+		}
+		d2 := 4
+		if c.Thorough() {
+			d2 = 5
+		}
+		_, tr2 := chunkBFS(c, "C04", deep, d2, 4*p, ChunkOpts{}, nil)
+		c.Trans(int64(tr2))
+		c.Set("bfs_depth_single_key", d2)
+	}
+
 	// (b) grid: every key length x value lengths around every multiple of the payload
 	klens := []int{1, 2, 3, 7, 8, 9, 100, 125, 200, 248, 249, 250}
 	maxK := 3
